@@ -43,7 +43,7 @@ func c16Keys() []bitcoin.Hash32 {
 	h0, h1 := c16Header(0), c16Header(1)
 	var other bitcoin.Hash32
 	other[7] = 0x77
-	return []bitcoin.Hash32{*c16Tx(0).TxHash(), *c16Tx(1).TxHash(), *h0.BlockHash(), *h1.BlockHash(), other}
+	return []bitcoin.Hash32{*c16Tx(0).TxHash(), *h0.BlockHash(), other, *c16Tx(1).TxHash(), *h1.BlockHash()}
 }
 
 type c16Pending struct {
@@ -69,8 +69,13 @@ func VerifHarness_C16_route() {
 	n := verifrt.Choose("pending", maxPending+1)
 	var pend []c16Pending
 	for i := 0; i < n; i++ {
-		typ := c16Kinds[verifrt.Choose("req.kind", len(c16Kinds))]
-		hash := keys[verifrt.Choose("req.key", len(keys))]
+		typ := verifrt.U64("req.kind")
+		inSet := false
+		for _, k := range c16Kinds {
+			inSet = verifrt.Or(inSet, typ == k)
+		}
+		verifrt.Assume(inSet)
+		hash := keys[verifrt.Choose("req.key", 3)]
 		hash[31] ^= verifrt.U8("req.key.flip") // symbolic perturbation of the key
 		height := verifrt.Int("req.height")
 		verifrt.Assume(verifrt.And(height >= -(1<<31), height < (1<<31)))
@@ -90,7 +95,7 @@ func VerifHarness_C16_route() {
 			return verifrt.And(r.typ == MessageTypeGetHeaders, r.height == int(h))
 		}
 	case 1:
-		hdr := c16Header(verifrt.Choose("resp.header", 2))
+		hdr := c16Header(0)
 		bh := *hdr.BlockHash()
 		msg = &Message{Payload: &Header{Header: hdr}}
 		answers = func(r *request) bool {
@@ -100,17 +105,17 @@ func VerifHarness_C16_route() {
 		msg = &Message{Payload: &FeeQuotes{}}
 		answers = func(r *request) bool { return r.typ == MessageTypeGetFeeQuotes }
 	case 3:
-		tx := c16Tx(verifrt.Choose("resp.tx", 2))
+		tx := c16Tx(0)
 		txid := *tx.TxHash()
 		msg = &Message{Payload: &BaseTx{Tx: tx}}
 		answers = func(r *request) bool {
 			return verifrt.And(r.typ == MessageTypeGetTx, c16HashEq(&r.hash, &txid))
 		}
 	case 4:
-		t := c16Kinds[verifrt.Choose("resp.accept.type", len(c16Kinds))]
+		t := verifrt.U64("resp.accept.type")
 		var hp *bitcoin.Hash32
 		if verifrt.Choose("resp.hash.present", 2) == 1 {
-			h := keys[verifrt.Choose("resp.key", len(keys))]
+			h := keys[verifrt.Choose("resp.key", 3)]
 			h[31] ^= verifrt.U8("resp.key.flip")
 			hp = &h
 		}
@@ -127,10 +132,10 @@ func VerifHarness_C16_route() {
 			return false
 		}
 	case 5:
-		t := c16Kinds[verifrt.Choose("resp.reject.type", len(c16Kinds))]
+		t := verifrt.U64("resp.reject.type")
 		var hp *bitcoin.Hash32
 		if verifrt.Choose("resp.hash.present", 2) == 1 {
-			h := keys[verifrt.Choose("resp.key", len(keys))]
+			h := keys[verifrt.Choose("resp.key", 3)]
 			h[31] ^= verifrt.U8("resp.key.flip")
 			hp = &h
 		}
@@ -170,7 +175,7 @@ func VerifHarness_C16_route() {
 	delivered := 0
 	for i, p := range pend {
 		got := len(p.ch) == 1
-		verifrt.Sig(NameForMessageType(msg.Payload.Type()), "to-kind", NameForMessageType(p.req.typ))
+		verifrt.Sig(NameForMessageType(msg.Payload.Type()), "delivery")
 		verifrt.Assert(got == expect[i], "C16.route.delivered-iff-first-request-it-answers")
 		if got {
 			delivered++
